@@ -175,3 +175,106 @@ def corner_traces(fn, key, jargs, picks=(0, -1), res=None):
         if not any(tree_bits_equal(c, R.to_numpy(t.get_choices())) for t in out):
             out.append(tr)
     return out
+
+
+# ---------------------------------------------------------------- combinators as ROOT generative functions
+
+
+def root_combinators():
+    """Scan / Vmap / Cond objects used directly as the generative function that is edited (not as a
+    sub-call of an @gen function): name -> (gf, wrapper Prog for the reference, address of the call in
+    the wrapper, old args, [new args, ...]).  The wrapper's choices are {addr: <root choices>}."""
+    from genjax import Scan, Cond, const
+    from mc import family as F
+    from mc import lang as L
+    from mc.lang import Prog, ScanCall, VmapCall, CondCall
+
+    f32 = np.float32
+    out = {}
+    step = F.step_c
+    out["root_scan"] = (
+        Scan(L.compile_prog(step), length=const(2)),
+        Prog("root_scan", ("a", "xs"), (ScanCall("s", step, 2, "a", "xs"),), "s"),
+        "s",
+        (f32(0.3), F.A(0.5, -0.4)),
+        [(f32(0.3), F.A(0.5, -0.4)), (f32(-1.2), F.A(0.5, -0.4)), (f32(0.3), F.A(1.1, 0.1))],
+    )
+    out["root_vmap"] = (
+        L.compile_prog(F.chain).vmap(in_axes=(0,)),
+        Prog("root_vmap", ("av",), (VmapCall("v", F.chain, (0,), None, ("av",)),), "v"),
+        "v",
+        (F.A(0.1, 0.7),),
+        [(F.A(0.1, 0.7),), (F.A(0.5, -0.4),)],
+    )
+    out["root_cond"] = (
+        Cond(L.compile_prog(F.br_t), L.compile_prog(F.br_f)),
+        Prog("root_cond", ("flag", "a"), (CondCall("c", F.br_t, F.br_f, "flag", ("a",)),), "c"),
+        "c",
+        (np.bool_(True), f32(0.3)),
+        [(np.bool_(True), f32(0.3)), (np.bool_(True), f32(-1.2))],
+    )
+    return out
+
+
+def check_root_edits(res, prop, op, seed=0):
+    """For every root combinator, every selection (regenerate) / constraint set (update) over its leaves
+    and every (old args -> new args) pair: the edited trace records the NEW arguments and is coherent
+    under them (score = -reference log density of its choices, return value = the reference's)."""
+    import itertools
+    import jax
+    import jax.numpy as jnp
+    from genjax import seed as gseed, sel
+    from genjax.core import handler_stack
+
+    key = jax.random.key(1234 + seed)
+    for name, (gf, wrapper, addr, old_args, news) in root_combinators().items():
+        jold = tuple(jnp.asarray(a) for a in old_args)
+        try:
+            tr0 = gseed(gf.simulate)(key, *jold)
+        except Exception as ex:
+            handler_stack.clear()
+            res.violate(prop, f"root-simulate-raises:{name}", error=f"{type(ex).__name__}: {str(ex)[:300]}")
+            continue
+        res.evaluations += 1
+        leaves = [p[1:] for p in R.leaf_paths(wrapper)]
+        subsets = [c for k in range(len(leaves) + 1) for c in itertools.combinations(leaves, k)]
+        old_flat = R.flatten(np_choices(tr0))
+        for new_args in news:
+            jnew = tuple(jnp.asarray(a) for a in new_args)
+            for S in subsets:
+                sigS = "+".join("/".join(p) for p in S) or "{}"
+                det = dict(root=name, operation=op, old_args=old_args, new_args=new_args, selected_or_constrained=[list(p) for p in S])
+                res.transitions += 1
+                try:
+                    if op == "regenerate":
+                        s = sel()
+                        for p in S:
+                            s = s | (sel(p[0]) if len(p) == 1 else sel(tuple(p)))
+                        new_tr, _w, _d = gseed(lambda t, *a: gf.regenerate(t, s, *a))(key, tr0, *jnew)
+                    else:
+                        cons = R.unflatten({p: np.asarray(old_flat[p]) * 0 + np.asarray(0.25, np.asarray(old_flat[p]).dtype) for p in S}) if S else {}
+                        new_tr, _w, _d = gf.update(tr0, jax.tree_util.tree_map(jnp.asarray, cons), *jnew)
+                except Exception as ex:
+                    handler_stack.clear()
+                    res.violate(prop, f"root-{op}-raises:{name}:{sigS}", error=f"{type(ex).__name__}: {str(ex)[:300]}", **det)
+                    continue
+                res.evaluations += 1
+                res.states += 1
+                res.validated += 1
+                ch = {addr: np_choices(new_tr)}
+                try:
+                    ro = R.run(wrapper, new_args, ch)
+                except Exception as ex:
+                    res.violate(prop, f"root-{op}-choices-malformed:{name}:{sigS}", error=str(ex)[:200], **det)
+                    continue
+                sc = float(np.asarray(new_tr.get_score()))
+                if not H.close(sc, -ro.logp):
+                    res.violate(prop, f"root-{op}-score:{name}:{sigS}", score=sc, reference_neg_logp=-ro.logp, **det)
+                if not tree_close(R.to_numpy(new_tr.get_retval()), ro.retval):
+                    res.violate(prop, f"root-{op}-retval:{name}:{sigS}", retval=R.to_numpy(new_tr.get_retval()), reference=ro.retval, **det)
+                sa, sk = split_args(new_tr.get_args())
+                if not (tree_close(R.to_numpy(sa), tuple(new_args), rtol=0, atol=0) and not sk):
+                    res.violate(prop, f"root-{op}-stored-args:{name}:{sigS}", stored=R.to_numpy(sa), **det)
+                res.case("root", name, op, sigS, str(new_args))
+                if not S and new_args is news[-1]:
+                    res.add_sample(dict(det, score=sc, reference_neg_logp=-ro.logp))
